@@ -79,6 +79,9 @@ def initMargins (p : Params) (dflt : Bool) : List Rat :=
     [mCmp (p.dtMin * p.overRelax) p.dtMax, mCmp (p.dtMax * p.underRelax) p.dtMin]
       ++ (if dflt then [mCmp p.dtInit p.dtMax, mCmp p.dtInit p.dtMin] else [])
 
+/-- `a < b` by more than binary64 rounding could blur -/
+def clearlyLess (a b : Rat) : Bool := decide (b - a > (absR a + absR b) / 1000000000000)
+
 /-- after a `compute` call: is the new `dt` a copy of `dt_min` (assigned by the dt_min / dt_max clamps or kept)? -/
 def dtIsMinAfter (p : Params) (s s' : TM) (old : Bool) (iters : Option Int) (recompute : Bool) : Bool :=
   if s'.dt = s.dt && s'.time = s.time && s'.recompNum = s.recompNum && s'.idx = s.idx then old else
@@ -88,7 +91,7 @@ def dtIsMinAfter (p : Params) (s s' : TM) (old : Bool) (iters : Option Int) (rec
     | none => s.dt
   let clamped := clampMax p (clampMin p adapted)
   s'.dt = clamped && clamped = p.dtMin &&
-    (adapted < p.dtMin || adapted > p.dtMax || (adapted = s.dt && old))
+    (clearlyLess adapted p.dtMin || clearlyLess p.dtMax adapted || (adapted = s.dt && old))
 
 def minMargin : List Rat → Json
   | [] => Json.null
